@@ -272,7 +272,8 @@ pub fn shrink_tm(t: &Tm) -> Vec<Tm> {
     for (i, k) in t.kids.iter().enumerate() {
         if k.t.size() > 1 {
             let mut c = t.clone();
-            c.kids[i].t = Tm::pay("k", 0);
+            // a leaf of the same language
+            c.kids[i].t = if (t.op as usize) >= op("num") as usize && t.name() != "sym" && !t.name().starts_with('p') { Tm::pay("num", 0) } else { Tm::pay("k", 0) };
             out.push(c);
         }
     }
